@@ -966,6 +966,7 @@ func c15(r *core.Run) {
 		// from the functions run on cluster.watchGroup
 		taken := map[string]bool{}
 		seen := map[*ssa.Function]bool{}
+		home := p.Pkg(discovInt)
 		var visit func(f *ssa.Function, d int)
 		visit = func(f *ssa.Function, d int) {
 			if f == nil || seen[f] || d > 5 || f.Blocks == nil {
@@ -978,7 +979,9 @@ func c15(r *core.Run) {
 						taken[m] = true
 					}
 					if c := core.AsCall(in); c != nil {
-						if callee := c.Common().StaticCallee(); callee != nil && callee.Pkg == f.Pkg {
+						// the package is fixed by role, not taken from f: a bound method value whose
+						// method the variant inlined is a synthetic function without package
+						if callee := c.Common().StaticCallee(); callee != nil && callee.Pkg != nil && callee.Pkg == home {
 							visit(callee, d+1)
 						}
 					}
@@ -1412,7 +1415,7 @@ func c15LoadThenWatch(o *core.O, p *core.Prog, f *ssa.Function, after []ssa.Inst
 		}
 		rev := false
 		for _, a := range args {
-			if cl, ok := core.Forward(a).(*ssa.Call); ok && isLoad(cl) {
+			if cl, ok := c15Forward(p, discovInt, a).(*ssa.Call); ok && isLoad(cl) {
 				rev = true
 			}
 		}
